@@ -709,7 +709,7 @@ def run(ctx):
             j = json.load(open(ctx.replay))
             cases = [case_from_json(j["case"]["case"], os.path.join(base, "replay"))]
         else:
-            n = 380 if ctx.quick() else 9000
+            n = 900 if ctx.quick() else 12000
             cases = []
             for i in range(n):
                 stream = rng.choices(["plain", "broken", "long", "malformed", "colon"], [48, 18, 17, 13, 4])[0]
